@@ -51,7 +51,7 @@ func (s *scen) blockEnd()                              { s.c.end(nil); s.c.commi
 
 func runScenarios() []monFailure {
 	var out []monFailure
-	for _, f := range []func() []monFailure{scenUpperCaseDecision, scenNestedOverflowPurchase, scenMixedModulesFee, scenDenomChange, scenVestingPurchaser, scenExtraDenomFee} {
+	for _, f := range []func() []monFailure{scenUpperCaseDecision, scenNestedOverflowPurchase, scenMixedModulesFee, scenDenomChange, scenVestingPurchaser, scenExtraDenomFee, scenGovPurchaser} {
 		out = append(out, f()...)
 	}
 	return out
@@ -203,5 +203,44 @@ func scenVestingPurchaser() []monFailure {
 	}
 	s.blockEnd()
 	_ = vestingtypes.ModuleName
+	return s.failures
+}
+
+// purchasers of every account kind: the governance module account (the only module account that can raise an
+// order, through a passed proposal) must be able to receive its completed order without halting the chain.
+func scenGovPurchaser() []monFailure {
+	s := &scen{c: newChain(fixedCfg()), name: "gov-module-account-purchaser"}
+	defer s.c.close()
+	c := s.c
+	gov := authtypes.NewModuleAddress("gov")
+	s.blockStart(5 * time.Second)
+	s.tx(0, nundCoins(10), enttypes.NewMsgWhitelistAddress(gov, enttypes.WhitelistActionAdd, c.addrOf(0)))
+	raise := enttypes.NewMsgUndPurchaseOrder(gov, sdk.NewInt64Coin("nund", 321))
+	prop, err := govv1.NewMsgSubmitProposal([]sdk.Msg{raise}, sdk.NewCoins(sdk.NewInt64Coin("stake", 10)), c.govActor.addr.String(), "", "t", "s")
+	if err != nil {
+		return s.failures
+	}
+	c.deliver(txSpec{msgs: []sdk.Msg{prop}, signers: []acct{c.govActor}})
+	c.deliver(txSpec{msgs: []sdk.Msg{govv1.NewMsgVote(c.govActor.addr, 1, govv1.OptionYes, "")}, signers: []acct{c.govActor}})
+	s.blockEnd()
+	s.blockStart(30 * time.Second)
+	s.blockEnd() // the proposal executes: order 1 raised by gov
+	s.blockStart(5 * time.Second)
+	po, ok := c.app.EnterpriseKeeper.GetPurchaseOrder(c.ctx(), 1)
+	if !ok || po.Purchaser != gov.String() {
+		s.blockEnd()
+		return s.failures // the proposal did not raise the order: nothing to check
+	}
+	s.tx(0, nundCoins(10), &enttypes.MsgProcessUndPurchaseOrder{PurchaseOrderId: 1, Decision: enttypes.StatusAccepted, Signer: c.addrOf(0).String()})
+	s.tx(1, nundCoins(10), &enttypes.MsgProcessUndPurchaseOrder{PurchaseOrderId: 1, Decision: enttypes.StatusAccepted, Signer: c.addrOf(1).String()})
+	s.blockEnd()
+	for i := 0; i < 2; i++ {
+		if p := s.blockStart(5 * time.Second); p != nil {
+			s.fail("C14", 0, fmt.Sprint("BeginBlock panicked completing an order whose purchaser is the governance module account: ", p))
+			s.fail("C04", 0, fmt.Sprint("order completion for the governance module account failed: ", p))
+			return s.failures
+		}
+		s.blockEnd()
+	}
 	return s.failures
 }
